@@ -146,7 +146,10 @@ struct Scenario {
     plan: BTreeMap<(u16, u64), Fault>,
     /// (from entity, PDU kind, occurrence of that kind in that direction) -> fault
     kplan: BTreeMap<(u16, &'static str, u64), Fault>,
-    strays: Vec<(u64, u16, PDU)>, // (at ms, to entity, pdu)
+    /// (at ms, to entity, pdu, take the sequence number of this job's transaction)
+    strays: Vec<(u64, u16, PDU, Option<usize>)>,
+    /// no link fault loses anything for good: every transaction must succeed, exactly once (C11 others_unaffected)
+    isolation: bool,
     horizon_s: u64,
     bounded: bool, // the fault plan is "bounded" in the sense of C02
 }
@@ -253,9 +256,17 @@ async fn run_scenario(out: &mut dyn Write, viol: &mut u64, base: &Utf8PathBuf, s
     let mut strays = sc.strays.clone();
     strays.sort_by_key(|s| s.0);
     let inj3 = inject.clone();
+    let job_seq: Vec<Option<VariableID>> = jobs.iter().map(|j| j.id.as_ref().map(|i| i.1)).collect();
     let stray_task = tokio::task::spawn(async move {
         let start = tokio::time::Instant::now();
-        for (at, to, pdu) in strays {
+        for (at, to, mut pdu, seq_of) in strays {
+            if let Some(k) = seq_of {
+                // a foreign PDU whose sequence number collides with a live transaction's
+                match job_seq.get(k).cloned().flatten() {
+                    Some(seq) => pdu.header.transaction_sequence_number = seq,
+                    None => continue,
+                }
+            }
             tokio::time::sleep_until(start + Duration::from_millis(at)).await;
             if let Some(tx) = inj3.get(&to) {
                 delivered3.lock().unwrap().entry(to).or_default().push(hdr_repr(&pdu));
@@ -331,6 +342,17 @@ async fn run_scenario(out: &mut dyn Write, viol: &mut u64, base: &Utf8PathBuf, s
         if send_success && !recv_success {
             *viol += 1;
             oracle(out, "C04", "sender_success_only_after_receiver", &format!("sender of {} reported success, receiver did not || {}", idr, ctx()));
+        }
+        if sc.isolation {
+            // C11: nothing was lost on the link, so whatever else happened at the daemons (other
+            // transactions, strays, replays) this transaction succeeds, and reports it exactly once
+            let recv_once = r.recv_finished.len() == 1 && recv_success;
+            let send_once = s.send_finished.len() == 1 && send_success;
+            let send_expected = j.mode == TransmissionMode::Acknowledged || sc.cfg.closure;
+            if !recv_once || got.as_deref() != Some(&j.file[..]) || (send_expected && !send_once) || (!send_expected && s.send_finished.iter().any(|x| x.0 != Condition::NoError)) {
+                *viol += 1;
+                oracle(out, "C11", "others_unaffected", &format!("no PDU of {} was lost but receiver finished {:?}, sender finished {:?}, file ok: {} || {}", idr, r.recv_finished, s.send_finished, got.as_deref() == Some(&j.file[..]), ctx()));
+            }
         }
         if sc.bounded && j.mode == TransmissionMode::Acknowledged {
             if !recv_success || got.as_deref() != Some(&j.file[..]) {
@@ -485,6 +507,7 @@ pub fn run(opts: &Opts, out: &mut dyn Write) {
             plan,
             kplan,
             strays: vec![],
+            isolation: false,
             bounded: true,
         };
         scenarios += 1;
@@ -514,19 +537,44 @@ pub fn run(opts: &Opts, out: &mut dyn Write) {
             });
         }
         let mut strays = vec![];
-        for _ in 0..(1 + rng.below(4)) {
-            let at = rng.below(3000);
-            let to = *rng.pick(&[1u16, 2]);
-            let p = match rng.below(4) {
-                // a response addressed to a sender that does not exist
-                0 => mk_pdu(Direction::ToSender, TransmissionMode::Acknowledged, to, 900 + rng.below(50) as u16, 3 - to, PDUPayload::Directive(Operations::Finished(Finished { condition: Condition::NoError, delivery_code: DeliveryCode::Complete, file_status: FileStatusCode::Retained, filestore_response: vec![], fault_location: None }))),
-                // a PDU naming an entity without transport
-                1 => mk_pdu(Direction::ToReceiver, TransmissionMode::Acknowledged, 77, 5, to, PDUPayload::Directive(Operations::EoF(EndOfFile { condition: Condition::NoError, checksum: 0, file_size: 0, fault_location: None }))),
-                // a stray that legitimately starts a receive transaction which nobody continues
-                2 => mk_pdu(Direction::ToReceiver, TransmissionMode::Acknowledged, 3 - to, 700 + rng.below(50) as u16, to, PDUPayload::FileData(FileDataPDU::Unsegmented(UnsegmentedFileData { offset: 0, file_data: vec![1, 2, 3] }))),
-                _ => mk_pdu(Direction::ToReceiver, TransmissionMode::Unacknowledged, 3 - to, 800 + rng.below(50) as u16, to, PDUPayload::Directive(Operations::EoF(EndOfFile { condition: Condition::NoError, checksum: 0, file_size: 0, fault_location: None }))),
+        let fin = |c: Condition, d: DeliveryCode| PDUPayload::Directive(Operations::Finished(Finished { condition: c, delivery_code: d, file_status: FileStatusCode::Retained, filestore_response: vec![], fault_location: None }));
+        for _ in 0..(2 + rng.below(5)) {
+            let kind = rng.below(9);
+            let at = if kind >= 4 { rng.below(700) } else { rng.below(3000) };
+            let job = rng.below(njobs as u64) as usize;
+            // colliding strays go where the transaction they collide with lives
+            let to = match kind {
+                4..=6 => jobs[job].from,
+                7 | 8 => jobs[job].to,
+                _ => *rng.pick(&[1u16, 2]),
             };
-            strays.push((at, to, p));
+            let foreign = *rng.pick(&[3u16, 77]);
+            let (p, seq_of) = match kind {
+                // a response addressed to a sender that does not exist
+                0 => (mk_pdu(Direction::ToSender, TransmissionMode::Acknowledged, to, 900 + rng.below(50) as u16, 3 - to, fin(Condition::NoError, DeliveryCode::Complete)), None),
+                // a PDU naming an entity without transport
+                1 => (mk_pdu(Direction::ToReceiver, TransmissionMode::Acknowledged, 77, 5, to, PDUPayload::Directive(Operations::EoF(EndOfFile { condition: Condition::NoError, checksum: 0, file_size: 0, fault_location: None }))), None),
+                // a stray that legitimately starts a receive transaction which nobody continues
+                2 => (mk_pdu(Direction::ToReceiver, TransmissionMode::Acknowledged, 3 - to, 700 + rng.below(50) as u16, to, PDUPayload::FileData(FileDataPDU::Unsegmented(UnsegmentedFileData { offset: 0, file_data: vec![1, 2, 3] }))), None),
+                3 => (mk_pdu(Direction::ToReceiver, TransmissionMode::Unacknowledged, 3 - to, 800 + rng.below(50) as u16, to, PDUPayload::Directive(Operations::EoF(EndOfFile { condition: Condition::NoError, checksum: 0, file_size: 0, fault_location: None }))), None),
+                // responses of a foreign entity's transaction whose sequence number collides with a live send transaction here
+                4 => (mk_pdu(Direction::ToSender, TransmissionMode::Acknowledged, foreign, 0, to, fin(Condition::FileChecksumFailure, DeliveryCode::Incomplete)), Some(job)),
+                5 => (mk_pdu(Direction::ToSender, TransmissionMode::Acknowledged, foreign, 0, to, fin(Condition::CancelReceived, DeliveryCode::Incomplete)), Some(job)),
+                6 => (mk_pdu(Direction::ToSender, TransmissionMode::Acknowledged, foreign, 0, to, PDUPayload::Directive(Operations::Ack(PositiveAcknowledgePDU { directive: PDUDirective::EoF, directive_subtype_code: ACKSubDirective::Other, condition: Condition::NoError, transaction_status: TransactionStatus::Active }))), Some(job)),
+                // file data / a cancelling EOF of a foreign entity's transaction with a colliding sequence number
+                7 => (mk_pdu(Direction::ToReceiver, TransmissionMode::Acknowledged, foreign, 0, to, PDUPayload::FileData(FileDataPDU::Unsegmented(UnsegmentedFileData { offset: 0, file_data: vec![0xEE; 9] }))), Some(job)),
+                _ => (mk_pdu(Direction::ToReceiver, TransmissionMode::Acknowledged, foreign, 0, to, PDUPayload::Directive(Operations::EoF(EndOfFile { condition: Condition::CancelReceived, checksum: 0, file_size: 0, fault_location: Some(vid(foreign)) }))), Some(job)),
+            };
+            strays.push((at, to, p, seq_of));
+        }
+        // keep the transactions alive for a while (nothing is lost): the EOF, Finished and ACK PDUs are late
+        let mut kplan = BTreeMap::new();
+        for (from, kind) in [(1u16, "eof"), (2, "eof"), (1, "fin"), (2, "fin"), (1, "ack"), (2, "ack")] {
+            for occ in 0..njobs as u64 {
+                if rng.chance(1, 2) {
+                    kplan.insert((from, kind, occ), Fault::Delay(*rng.pick(&[200u64, 450, 700])));
+                }
+            }
         }
         let tag = format!("c11-{}-seed{}", k, opts.seed);
         let sc = Scenario {
@@ -534,8 +582,9 @@ pub fn run(opts: &Opts, out: &mut dyn Write) {
             cfg,
             jobs,
             plan: BTreeMap::new(),
-            kplan: BTreeMap::new(),
+            kplan,
             strays,
+            isolation: true,
             bounded: true,
         };
         scenarios += 1;
